@@ -1,12 +1,18 @@
 #!/usr/bin/env python3
 """survey.py <survey.jsonl> <out.jsonl> [par]: runs resolint -prop ALL on every generated mutant
 (position-based overlay). Development aid for finding blind spots: lists which mutants no check
-reports. Does not touch /repo."""
+reports. Does not touch /repo: it analyses a snapshot of HEAD under /tmp/survey-base (the working
+tree of /repo may be patched by seeds_check / benign_check meanwhile)."""
 import json,sys,subprocess,os,tempfile,concurrent.futures as cf
 src,out=sys.argv[1],sys.argv[2]
 par=int(sys.argv[3]) if len(sys.argv)>3 else 12
 env=dict(os.environ,GOFLAGS='-mod=mod',GOPROXY='off',GOSUMDB='off',GOTOOLCHAIN='local',GOWORK='off')
 muts=[json.loads(l) for l in open(src)]
+import shutil
+if not os.environ.get('KEEP_BASE'):
+    shutil.rmtree('/tmp/survey-base',ignore_errors=True); os.makedirs('/tmp/survey-base')
+    subprocess.run('git -C /repo archive HEAD | tar -x -C /tmp/survey-base',shell=True,check=True)
+shutil.copy(os.environ.get('RESOLINT_BIN','/verif/bin/resolint'),'/tmp/survey-resolint-'+str(os.getpid()))  # the binary may be rebuilt meanwhile
 done=set()
 if os.path.exists(out):
     for l in open(out):
@@ -16,7 +22,7 @@ def run(m):
         json.dump({"name":m['id'],"property":[],"expect":"","edits":[{"file":m['file'],"offset":m['offset'],"length":m['length'],"find":m['find'],"replace":m['replace'],"at_pos":True}]},f)
         path=f.name
     try:
-        p=subprocess.run(['/verif/bin/resolint','-repo','/repo','-verif','/verif','-prop','ALL','-overlay',path],capture_output=True,text=True,env=env,timeout=300)
+        p=subprocess.run(['/tmp/survey-resolint-'+str(os.getpid()),'-repo','/tmp/survey-base','-verif','/verif','-prop','ALL','-overlay',path],capture_output=True,text=True,env=env,timeout=300)
         o=p.stdout+p.stderr
     except Exception as e:
         o='resolint: timeout '+str(e)
